@@ -32,9 +32,14 @@ static void run_case(CaseCtx& c)
     ps.prof = alpha_c == 0 ? F_POISSON : (alpha_c == 1 ? (beta_c ? F_SONN_GYRO : F_SONN) : (alpha_c == 2 ? (beta_c ? F_ZONI_GYRO : F_ZONI) : (beta_c ? F_ZONISH_GYRO : F_ZONISH)));
     ps.Rmax = rng.pick({1.0, 1.3, 2.0});
     random_geom_params(rng, ps, rng.coin(0.15));
+    // Shafranov: det DF = (1+kappa) r/Rmax^2 * ((1-kappa) - 2 delta (r/Rmax) cos(theta)) vanishes inside the domain
+    // unless 2 delta < 1 - kappa; the box kappa<=0.5, delta<=0.3 contains such singular (inadmissible) mappings.
+    // Keep the factor >= 0.2 (1-kappa) (the shipped default kappa=0.3, delta=0.2 has 0.43 (1-kappa)).
+    if (ps.geom == G_SHAFRANOV && 2.0 * ps.p2 > 0.8 * (1.0 - ps.p1))
+        ps.p2 = rng.uniform(0.0, 0.4 * (1.0 - ps.p1));
     ps.alpha_jump = rng.uniform(0.2, 0.9) * ps.Rmax;
     double R0     = rng.loguniform(1e-5, 0.3) * ps.Rmax;
-    int npts      = atoi(c.arg("points", "50").c_str());
+    int npts      = atoi(c.arg("points", c.thorough() ? "1000" : "100").c_str());
     double gain   = atof(c.arg("noise_gain", "1e9").c_str());
     double jgain  = atof(c.arg("jac_noise_gain", "1e11").c_str());
     bool dump     = c.arg("dump", "0") == "1"; // debugging aid: per-point details on stderr
